@@ -263,6 +263,24 @@ Section PdhgFejer.
       cbn [pd_iter] in H. lra.
   Qed.
 
+  (* summability of the M-lengths of the steps: sum_{j<n} ||w_{j+1}-w_j||_M^2 + d_n <= d_0 *)
+  Fixpoint sumf (h : nat -> R) (n : nat) : R := match n with O => 0 | S k => sumf h k + h k end.
+
+  Definition fejer_steplen (st : pd_state ROps X U R R) (j : nat) : R :=
+    Mn2 (pd_tau st) (pd_sigma st) (vminus (pd_x (siter 1 0 0 (S j) st)) (pd_x (siter 1 0 0 j st)))
+        (vminus (pd_u (siter 1 0 0 (S (S j)) st)) (pd_u (siter 1 0 0 (S j) st))).
+
+  Lemma pdhg_fejer_sum st xs us n :
+    0 < pd_tau st -> 0 < pd_sigma st -> ssaddle xs us ->
+    sumf (fejer_steplen st) n + fejer_dist st xs us n <= fejer_dist st xs us 0.
+  Proof.
+    intros Ht Hs Hsad. induction n as [|n IH]; [cbn [sumf]; lra|].
+    cbn [sumf]. unfold fejer_dist, fejer_steplen in *.
+    destruct (siter_steps n st) as [Htk Hsk].
+    pose proof (pdhg_fejer_step (siter 1 0 0 n st) xs us ltac:(rewrite Htk; exact Ht) ltac:(rewrite Hsk; exact Hs) Hsad) as H.
+    cbv zeta in H. rewrite Htk, Hsk in H. cbn [pd_iter] in *. lra.
+  Qed.
+
   (* ---- saddle <-> fixed point for scalar steps, as an instance of the general statement ------ *)
   Lemma scalar_tinv_act (E : IPS) (t : R) (v : E) : 0 < t -> vmul (/ t) (vmul t v) = v.
   Proof. intro. vec_eq. lra. Qed.
